@@ -18,9 +18,11 @@ func (x *Exec) doSend(st *State, ins *ssa.Send) bool {
 	x.fail("channel send outside the supported subset")
 	return false
 }
-func (x *Exec) doRecv(st *State, ins *ssa.UnOp) { x.fail("channel receive outside the supported subset") }
-func (x *Exec) doGo(st *State, ins *ssa.Go)     { x.fail("go statement outside the supported subset") }
-func (x *Exec) doClose(st *State, ch Val)       { x.fail("close outside the supported subset") }
+func (x *Exec) doRecv(st *State, ins *ssa.UnOp) {
+	x.fail("channel receive outside the supported subset")
+}
+func (x *Exec) doGo(st *State, ins *ssa.Go) { x.fail("go statement outside the supported subset") }
+func (x *Exec) doClose(st *State, ch Val)   { x.fail("close outside the supported subset") }
 
 func (x *Exec) lockAcquired(st *State, m *T)                {}
 func (x *Exec) lockReleased(st *State, m *T, pos token.Pos) {}
